@@ -10,6 +10,28 @@ from ..lib import (construct, std_facts, def_of, facts_at, calls_of_node,
 CP = 'config_parser.ConfigParser'
 
 
+def decline_sentinels(prog):
+  """Module-level names of config_parser bound to a fresh `object()`: a value parser may decline by returning one."""
+  m = prog.ix.module('config_parser')
+  return {name for name, lst in m.assigns.items() if len(lst) == 1 and isinstance(lst[0][1], ast.Call) and u(lst[0][1]) == 'object()'}
+
+
+def is_decline(prog, v):
+  """`return (False, ...)` or `return <module sentinel>`: the alternative does not apply."""
+  if isinstance(v, ast.Tuple) and v.elts and isinstance(v.elts[0], ast.Constant) and v.elts[0].value is False:
+    return True
+  return isinstance(v, ast.Name) and v.id in decline_sentinels(prog)
+
+
+def accepted_value(prog, v):
+  """The value an accepting return hands back: v of `(True, v)`, or the returned expression itself under the sentinel protocol."""
+  if isinstance(v, ast.Tuple) and len(v.elts) == 2 and isinstance(v.elts[0], ast.Constant) and v.elts[0].value is True:
+    return v.elts[1]
+  if v is not None and not isinstance(v, ast.Tuple) and not is_decline(prog, v) and decline_sentinels(prog):
+    return v
+  return None
+
+
 def indirect_callees(prog, m, cc):
   """Callee(s) of a call: a call through a loop variable that iterates a
   list of bound methods (parse_value's alternatives) stands for each of them;
@@ -111,8 +133,7 @@ def run(ctx):
     con = construct(f)
     g = prog.cfg(f)
     cids = {n.id for n in g.live_nodes() if any(prog.resolve_call(f, c) in cons for c in calls_of_node(n))}
-    declines = [n for n in g.live_nodes() if n.kind == 'return' and isinstance(n.ast.value, ast.Tuple)
-                and n.ast.value.elts and isinstance(n.ast.value.elts[0], ast.Constant) and n.ast.value.elts[0].value is False]
+    declines = [n for n in g.live_nodes() if n.kind == 'return' and is_decline(prog, n.ast.value)]
     accepts = [n for n in g.live_nodes() if n.kind == 'return' and n not in declines]
     npaths = 0
     bad = None
@@ -140,10 +161,11 @@ def run(ctx):
       ctx.hold('C02.backtrack', con, 'no feasible path consumes a token and then declines (%d decline paths, %d consuming nodes)'
                % (npaths, len(cids)), f.loc(), sites=max(npaths, 1))
     # a failing alternative reports through (False, ...) or raises; success returns (True, value)
-    okacc = all(isinstance(n.ast.value, ast.Tuple) and isinstance(n.ast.value.elts[0], ast.Constant) and n.ast.value.elts[0].value is True
-                for n in accepts)
-    ctx.check(okacc and accepts, 'C02.backtrack', con, 'success is reported as (True, value)', 'an alternative returns something other than (True, value) / (False, ...)',
-              f.loc(), instance='protocol')
+    okacc = all(accepted_value(prog, n.ast.value) is not None for n in accepts)
+    # one protocol per alternative: (True, value) / (False, ...), or value / <sentinel>
+    kinds = {('tuple' if isinstance(n.ast.value, ast.Tuple) else 'plain') for n in accepts + declines}
+    ctx.check(okacc and accepts and len(kinds) == 1, 'C02.backtrack', con, 'success and decline are reported through one protocol ((True, value) / (False, ...), or value / sentinel)',
+              'an alternative returns something other than (True, value) / (False, ...)', f.loc(), instance='protocol')
   # dispatcher: first success wins, total failure raises
   g = prog.cfg(pv)
   ok = not g.normal_exit_reachable() or all(n.kind == 'return' for n, _ in [(g.nodes[a], k) for a, k in g.pred[g.exit.id]])
@@ -154,12 +176,11 @@ def run(ctx):
   # ---- C02.delegate
   bt = ctx.func(CP + '._maybe_parse_basic_type')
   g, facts = std_facts(prog, bt)
-  acc = [n for n in g.live_nodes() if n.kind == 'return' and isinstance(n.ast.value, ast.Tuple) and len(n.ast.value.elts) == 2
-         and isinstance(n.ast.value.elts[0], ast.Constant) and n.ast.value.elts[0].value is True]
+  acc = [n for n in g.live_nodes() if n.kind == 'return' and accepted_value(prog, n.ast.value) is not None]
   ok = bool(acc)
   src = None
   for n in acc:
-    v = n.ast.value.elts[1]
+    v = accepted_value(prog, n.ast.value)
     if isinstance(v, ast.Name):
       # every definition of the returned name is a literal_eval call (flow-insensitive)
       ds = [u(a.value) for a in walk_local(bt.node) if isinstance(a, ast.Assign) and u(a.targets[0]) == v.id]
